@@ -369,4 +369,15 @@ theorem packet_eth (os : List AnyObj) (h : ∀ o ∈ os, registryPreds.Inv o ∧
   rw [ed2] at c4
   exact ⟨out2, e1, c1, c3, c4⟩
 
+/-! ### where the hypothesis comes from -/
+
+/-- every packet libtins accepts (any entry point, any bytes a `uint32_t` can measure) that contains neither PPI nor PKTAP
+    satisfies the hypothesis of `layer_in_packet` and of the `packet_*` theorems — so they hold for the re-serialization of
+    every parsed packet; for API-built stacks the hypothesis is what the constructors establish and the setters preserve
+    (`<fam>_mk_inv`, `<fam>_apply_inv`) -/
+theorem parsed_packet_good (cls : String) (b : Bytes) (os : List AnyObj) (hb : b.length < 4294967296)
+    (h : parseChain (b.length + 2) cls b = .ok os) (hn : ∀ o ∈ os, NotPseudo o) :
+    ∀ o ∈ os, registryPreds.Inv o ∧ registryPreds.Ser o :=
+  good_to_invSer os (parsed_layers_good cls b os hb h) hn
+
 end Tins.Wire.Derived
